@@ -226,7 +226,7 @@ def rule_go_keywords(ctx):
               bad_what="Search::new initialises limits with `%s`" % (expr_str(lim)[:80] if lim else None))
 
 
-TREE = (C.ALPHA_BETA_START, C.ALPHA_BETA, C.QUIESCENCE, "search::Search::get_pv", "search::Search::store_killers", "search::Search::log_uci_info")
+TREE = (C.ALPHA_BETA_START, C.ALPHA_BETA, C.QUIESCENCE, "search::Search::get_pv", "search::Search::log_uci_info")
 
 
 def rule_tree_index(ctx):
@@ -237,10 +237,15 @@ def rule_tree_index(ctx):
     widened to usize into an array of 256."""
     ix = ctx.ix
     bodies = [ctx.body(k) for k in TREE]
+    # ... and whatever other method of Search the walk calls (store_killers today; a helper moved onto another type is
+    # expanded into its caller and audited there)
+    for k in sorted(ix.reachable([C.ITER_DEEP])):
+        if k.startswith("search::Search::") and k not in TREE and k != C.ITER_DEEP and k in ix.bodies and ix.bodies[k].kind == "fn":
+            bodies.append(ix.bodies[k])
     for b in bodies:
         ctx.functions.add(b.key)
     n = c15.audit_index(ctx, bodies)
-    ctx.floor("index sites in the tree walk", n, 8)
+    ctx.floor("index sites in the tree walk", n, 4)
     ctx.note("tree-walk-other-panics", "lock poisoning (`expect` on the cache lock: only after another thread panicked while holding it), the consistency assert of get_pv (decided by C02) and the ply-counter / node-counter arithmetic are not decided")
 
 
